@@ -764,6 +764,26 @@ func (w *W) c07(groups [][]*driver.Bound) {
 							mut("byte@"+role, func(c []byte) []byte { c[i] = r; return c })
 						}
 					}
+					// every 4- and 8-byte window that holds no count / length byte overwritten with NaN patterns and all-ones
+					// (float keys and values; all-ones is also -1 / the maximum of every integer type)
+					for i := range enc {
+						for _, pat := range [][]byte{{0, 0, 0xc0, 0x7f}, {0xff, 0xff, 0xff, 0xff}, {0, 0, 0, 0, 0, 0, 0xf8, 0x7f}, {0xff, 0xff, 0xff, 0xff, 0xff, 0xff, 0xff, 0xff}} {
+							if i+len(pat) > len(enc) {
+								continue
+							}
+							ok := true
+							for j := i; j < i+len(pat); j++ {
+								if ref.Roles[j] == refcodec.RCount || ref.Roles[j] == refcodec.RLen {
+									ok = false
+								}
+							}
+							if !ok || bytes.Equal(enc[i:i+len(pat)], pat) {
+								continue
+							}
+							i, pat := i, pat
+							mut(fmt.Sprintf("word%d@%s", len(pat), ref.Roles[i].String()), func(c []byte) []byte { copy(c[i:], pat); return c })
+						}
+					}
 					// every annotated u32 (count / length prefix) replaced by interesting values; survivable sizes first
 					for i := 0; i+3 < len(enc); i++ {
 						if (ref.Roles[i] != refcodec.RCount && ref.Roles[i] != refcodec.RLen) || sameWord(ref, i) {
